@@ -605,6 +605,14 @@ def t_templates(tier):
     T.append(("def tfun(a: Qfixed[{i}, {f}]) -> Qfixed[{i}, {f}]:\n    return float(a)\n", {"i": ["1", "2"], "f": ["2"]}))
     T.append(("def tfun(a: Qint[2]) -> Qfixed[2, {f}]:\n    return float(a)\n", {"f": ["2", "3"]}))
     T.append(("def tfun(a: Qint[2]) -> Qint[2]:\n    return int(a)\n", {}))
+    # a tuple / list variable reassigned with a literal that reads its own earlier elements (a parallel update)
+    T.append(("def tfun(a: Tuple[bool, bool]) -> Tuple[bool, bool]:\n    a = (a[1], a[0])\n    return a\n", {}))
+    T.append(("def tfun(a: Tuple[bool, bool], b: bool) -> bool:\n    a = ({x}, {y})\n    return a[0] and not a[1]\n",
+              {"x": ["a[1]", "a[1] ^ b", "not a[0]"], "y": ["a[0]", "a[0] or b", "a[1]"]}))
+    T.append(("def tfun(a: Qlist[bool, 3]) -> Qlist[bool, 3]:\n    a = [a[2], a[0], a[1]]\n    return a\n", {}))
+    T.append(("def tfun(a: Tuple[Qint[2], bool]) -> Tuple[Qint[2], bool]:\n    a = (a[0] + 1, a[0] == 3)\n    return a\n", {}))
+    T.append(("def tfun(a: Tuple[Qint[2], Qint[2]]) -> Qint[2]:\n    a = (a[1], a[0] + a[1])\n    return a[0] ^ a[1]\n", {}))
+    T.append(("def tfun(a: Tuple[Qint[2], Qint[2]]) -> Tuple[Qint[2], Qint[2]]:\n    for i in range(2):\n        a = (a[1], a[0] + a[1])\n    return a\n", {}))
     # locals whose names merely contain "_ret" (how a symbol is treated must depend on its role, not on a substring of its name)
     for v in ("no_retry", "is_ret", "x_ret"):
         T.append(("def tfun(a: bool, b: bool, c: bool, d: bool) -> bool:\n    %s = {e}\n    return {r}\n" % v,
@@ -717,6 +725,10 @@ def m_templates(tier):
     R = ["t, u", "t, u != d", "a != b, t != d", "u, t", "t and u, t", "a != b, u", "u != d, t"]
     T = [("def tfun(a: bool, b: bool, c: bool, d: bool) -> Tuple[bool, bool]:\n    t = {e1}\n    u = {e2}\n{mid}    return {r}\n",
           {"e1": E1, "e2": E2, "mid": MID, "r": R})]
+    # an ARGUMENT overwritten, then conditionally overwritten again (the conditional merges the old and the new value)
+    T.append(("def tfun(a: bool, b: bool, c: bool, d: bool) -> bool:\n    a = {e1}\n    if {cond}:\n        a = {e2}\n    return {r}\n",
+              {"e1": ["b or c", "b and d", "not b", "b ^ c"], "cond": ["c", "d", "b and c", "not c"], "e2": ["not b", "a and d", "b ^ d", "not a"],
+               "r": ["a ^ b", "a", "a and d", "a or c"]}))
     if tier == "thorough":
         T.append(("def tfun(a: bool, b: bool, c: bool, d: bool) -> Tuple[bool, bool, bool]:\n    t = {e1}\n    u = {e2}\n{mid}    v = {e3}\n{mid2}    return {r}, v\n",
                   {"e1": E1, "e2": E2, "mid": MID[:3], "e3": ["t and u", "u != a", "(a != b) and d", "not u"], "mid2": ["", "    v = not v\n", "    u = not u\n"], "r": R[:5]}))
